@@ -27,6 +27,7 @@ from sa.pyfront import Program
 from sa.symex import Interp
 
 RULES = {
+    "R-C02-f": "walk schema (imported from the C14 analysis): every non-empty uncommon and marginal intersection is presented exactly once, with no early exit from the entry loops",
     "R-C02-a": "every region of every index-cube aggregate is differenced exactly once, before it is trimmed, tested or returned",
     "R-C02-b": "ffunc_count corner values are the all-rows instances of the per-cell values",
     "R-C02-c": "unweighted count: missing <=> trimmed differenced count is (close to) zero; one mask for sentinel and validity",
@@ -139,7 +140,7 @@ def main(tier):
     rep = core.Report("C02", level="other", rules=RULES, tier=tier,
                       declined="every cell equals the brute-force contingency count for all data (values); decided are the structural conditions that make the reconstructed common cells right")
     rep.trusted_base = ["CPython ast", "symbolic walker + configuration oracle", "aggregate algebra normaliser"]
-    rep.assume("walk schema (C14), exact intersections (C08) and well-formed indexes (C07) are established by their own checks")
+    rep.assume("exact intersections (C08) and well-formed indexes (C07) are established by their own checks")
     prog = Program()
     C = AT.Collector()
     n_a = AT.rule_difference_typestate(prog, C)
@@ -151,6 +152,15 @@ def main(tier):
     rule_c(prog, rep)
     rule_d(prog, rep)
     rule_e(prog, rep)
+    # R-C02-f: the counts are laid down by the walk: its schema (every non-empty uncommon / marginal
+    # intersection presented exactly once, no early exit) is decided by the C14 analysis and imported here
+    import c14
+    sub = core.Report("C14", level="other", rules=c14.RULES, tier=tier)
+    c14.analyse(prog, sub)
+    c14.walk_rules(prog, sub)
+    for o in sub.obls:
+        rep.add("R-C02-f", o.where, "[%s] %s" % (o.rule, o.construct), o.status, o.detail, True, o.witness)
+    rep.floor("R-C02-f", 30, len(sub.obls))
     return rep.finish()
 
 
